@@ -64,12 +64,13 @@ Definition per_run_covered (ex lf lfr : list string) : bool :=
 (* ====================================================================================== *)
 (* 2. carried state *)
 
-Inductive gname := GVar (i : nat) | GFun (i : nat) | GCls (i : nat) | GLeak | GMod (m : modk).
+Inductive gname := GVar (i : idx) | GFun (i : idx) | GCls (i : idx) | GLeak | GFib | GMod (m : modk).
 Inductive gval :=
 | VNum (z : Z)
-| VFn (g : nat)                      (* fn f() { return g<g> + 1; } *)
+| VFn (g : idx)                      (* fn f() { return g<g> + 1; } *)
 | VClass (z : Z)                     (* class with method m returning z *)
 | VClosure (z : Z)                   (* || x with x = z *)
+| VFiber (left_called : bool)        (* a fiber that is not running; left_called: its `caller` link is still set *)
 | VMod (m : modk).
 
 Definition modk_eqb (a b : modk) : bool :=
@@ -77,20 +78,63 @@ Definition modk_eqb (a b : modk) : bool :=
   | MGood, MGood | MThrow, MThrow | MMissing, MMissing | MSyntax, MSyntax | MNest, MNest => true
   | _, _ => false
   end.
-Definition gname_eqb (a b : gname) : bool :=
-  match a, b with
-  | GVar i, GVar j | GFun i, GFun j | GCls i, GCls j => Nat.eqb i j
-  | GLeak, GLeak => true
-  | GMod m, GMod n => modk_eqb m n
-  | _, _ => false
-  end.
 
-Definition globals := gname -> option gval.
-Definition modreg := modk -> option bool.      (* None: not registered; Some b: registered, imported = b *)
-Definition gset (k : gname) (v : gval) (g : globals) : globals := fun k' => if gname_eqb k k' then Some v else g k'.
-Definition mset (k : modk) (b : bool) (r : modreg) : modreg := fun k' => if modk_eqb k k' then Some b else r k'.
-Definition gempty : globals := fun _ => None.
-Definition mempty : modreg := fun _ => None.
+(* finite maps as records: one field per name of the mini-language *)
+Record globals := mkG { g_v0 : option gval; g_v1 : option gval; g_f0 : option gval; g_f1 : option gval; g_c0 : option gval; g_c1 : option gval; g_leak : option gval; g_fib : option gval; g_mg : option gval; g_mb : option gval; g_mm : option gval; g_ms : option gval; g_mn : option gval }.
+Record modreg := mkR { r_good : option bool; r_bad : option bool; r_missing : option bool; r_syn : option bool; r_nest : option bool }.      (* None: not registered; Some b: registered, imported = b *)
+
+Definition gget (k : gname) (g : globals) : option gval :=
+  match k with
+  | GVar I0 => g_v0 g
+  | GVar I1 => g_v1 g
+  | GFun I0 => g_f0 g
+  | GFun I1 => g_f1 g
+  | GCls I0 => g_c0 g
+  | GCls I1 => g_c1 g
+  | GLeak => g_leak g
+  | GFib => g_fib g
+  | GMod MGood => g_mg g
+  | GMod MThrow => g_mb g
+  | GMod MMissing => g_mm g
+  | GMod MSyntax => g_ms g
+  | GMod MNest => g_mn g
+  end.
+Definition gset (k : gname) (v : gval) (g : globals) : globals :=
+  match k with
+  | GVar I0 => mkG (Some v) (g_v1 g) (g_f0 g) (g_f1 g) (g_c0 g) (g_c1 g) (g_leak g) (g_fib g) (g_mg g) (g_mb g) (g_mm g) (g_ms g) (g_mn g)
+  | GVar I1 => mkG (g_v0 g) (Some v) (g_f0 g) (g_f1 g) (g_c0 g) (g_c1 g) (g_leak g) (g_fib g) (g_mg g) (g_mb g) (g_mm g) (g_ms g) (g_mn g)
+  | GFun I0 => mkG (g_v0 g) (g_v1 g) (Some v) (g_f1 g) (g_c0 g) (g_c1 g) (g_leak g) (g_fib g) (g_mg g) (g_mb g) (g_mm g) (g_ms g) (g_mn g)
+  | GFun I1 => mkG (g_v0 g) (g_v1 g) (g_f0 g) (Some v) (g_c0 g) (g_c1 g) (g_leak g) (g_fib g) (g_mg g) (g_mb g) (g_mm g) (g_ms g) (g_mn g)
+  | GCls I0 => mkG (g_v0 g) (g_v1 g) (g_f0 g) (g_f1 g) (Some v) (g_c1 g) (g_leak g) (g_fib g) (g_mg g) (g_mb g) (g_mm g) (g_ms g) (g_mn g)
+  | GCls I1 => mkG (g_v0 g) (g_v1 g) (g_f0 g) (g_f1 g) (g_c0 g) (Some v) (g_leak g) (g_fib g) (g_mg g) (g_mb g) (g_mm g) (g_ms g) (g_mn g)
+  | GLeak => mkG (g_v0 g) (g_v1 g) (g_f0 g) (g_f1 g) (g_c0 g) (g_c1 g) (Some v) (g_fib g) (g_mg g) (g_mb g) (g_mm g) (g_ms g) (g_mn g)
+  | GFib => mkG (g_v0 g) (g_v1 g) (g_f0 g) (g_f1 g) (g_c0 g) (g_c1 g) (g_leak g) (Some v) (g_mg g) (g_mb g) (g_mm g) (g_ms g) (g_mn g)
+  | GMod MGood => mkG (g_v0 g) (g_v1 g) (g_f0 g) (g_f1 g) (g_c0 g) (g_c1 g) (g_leak g) (g_fib g) (Some v) (g_mb g) (g_mm g) (g_ms g) (g_mn g)
+  | GMod MThrow => mkG (g_v0 g) (g_v1 g) (g_f0 g) (g_f1 g) (g_c0 g) (g_c1 g) (g_leak g) (g_fib g) (g_mg g) (Some v) (g_mm g) (g_ms g) (g_mn g)
+  | GMod MMissing => mkG (g_v0 g) (g_v1 g) (g_f0 g) (g_f1 g) (g_c0 g) (g_c1 g) (g_leak g) (g_fib g) (g_mg g) (g_mb g) (Some v) (g_ms g) (g_mn g)
+  | GMod MSyntax => mkG (g_v0 g) (g_v1 g) (g_f0 g) (g_f1 g) (g_c0 g) (g_c1 g) (g_leak g) (g_fib g) (g_mg g) (g_mb g) (g_mm g) (Some v) (g_mn g)
+  | GMod MNest => mkG (g_v0 g) (g_v1 g) (g_f0 g) (g_f1 g) (g_c0 g) (g_c1 g) (g_leak g) (g_fib g) (g_mg g) (g_mb g) (g_mm g) (g_ms g) (Some v)
+  end.
+Definition mget (k : modk) (r : modreg) : option bool :=
+  match k with
+  | MGood => r_good r
+  | MThrow => r_bad r
+  | MMissing => r_missing r
+  | MSyntax => r_syn r
+  | MNest => r_nest r
+  end.
+Definition mset (k : modk) (b : bool) (r : modreg) : modreg :=
+  match k with
+  | MGood => mkR (Some b) (r_bad r) (r_missing r) (r_syn r) (r_nest r)
+  | MThrow => mkR (r_good r) (Some b) (r_missing r) (r_syn r) (r_nest r)
+  | MMissing => mkR (r_good r) (r_bad r) (Some b) (r_syn r) (r_nest r)
+  | MSyntax => mkR (r_good r) (r_bad r) (r_missing r) (Some b) (r_nest r)
+  | MNest => mkR (r_good r) (r_bad r) (r_missing r) (r_syn r) (Some b)
+  end.
+Definition gempty : globals := mkG None None None None None None None None None None None None None.
+Definition mempty : modreg := mkR None None None None None.
+Definition gmap (f : option gval -> option gval) (g : globals) : globals :=
+  mkG (f (g_v0 g)) (f (g_v1 g)) (f (g_f0 g)) (f (g_f1 g)) (f (g_c0 g)) (f (g_c1 g)) (f (g_leak g)) (f (g_fib g)) (f (g_mg g)) (f (g_mb g)) (f (g_mm g)) (f (g_ms g)) (f (g_mn g)).
 
 Record handler := mkH { h_catch : bool; h_frames : nat }.
 Record fiber := mkFiber {
@@ -121,7 +165,7 @@ Definition range_cache_size : nat := 8.
 
 (* ---------- H5 ---------- *)
 Definition count_mods (r : modreg) : nat :=
-  List.length (filter (fun m => match r m with Some _ => true | None => false end) all_mods).
+  List.length (filter (fun m => match mget m r with Some _ => true | None => false end) all_mods).
 Definition show_b01 (b : bool) : string := if b then "1" else "0".
 Definition show_h5 (core : nat) (c : carried) : string :=
   let f := match c_fibers c with f :: _ => f | [] => mkFiber 0 0 [] false false false end in
@@ -181,8 +225,15 @@ Definition m_reset_stack (c : carried) : carried :=
   | f :: r => with_fibers (clear_fiber f :: map close_upv r) c
   end.
 
-(* runtime_error: store_error_ip_or, trace, reset_stack *)
-Definition m_runtime_error (c : carried) : carried := m_reset_stack c.
+(* runtime_error: store_error_ip_or, trace, reset_stack.  The fibers BETWEEN the failing fiber and the run's own
+   fiber keep their frames and their `caller` link: a global holding one of them (fw) is left neither finished
+   nor callable. *)
+Definition mark_left_called (g : globals) : globals :=
+  gmap (fun v => match v with Some (VFiber _) => Some (VFiber true) | _ => v end) g.
+Definition chain_waiting (l : list fiber) : bool := Nat.leb 3 (List.length l).
+Definition m_runtime_error (c : carried) : carried :=
+  let c1 := m_reset_stack c in
+  if chain_waiting (c_fibers c) then with_globals (mark_left_called (c_globals c1)) c1 else c1.
 
 (* the final Return of the script: its frame is popped, its slot truncated *)
 Definition m_run_ok (c : carried) : carried :=
@@ -213,12 +264,12 @@ Definition kind_s (k : kind) : string :=
 
 Inductive instr :=
 | IDefG (k : gname) (v : gval)          (* DefineGlobal with a value built by the snippet *)
-| IPrintNum (g : nat)                   (* print(g<g>) *)
-| IPrintCall (f : nat)                  (* print(f<f>()) *)
+| IPrintNum (g : idx)                   (* print(g<g>) *)
+| IPrintCall (f : idx)                  (* print(f<f>()) *)
 | IDeclClass                            (* DeclareClass (+ DefineGlobal name := nil) *)
 | IInheritBad                           (* Inherit with a superclass that is not a class *)
-| IDefClass (c : nat) (z : Z)           (* methods, DefineClass, the global now holds the class *)
-| IUseClass (c : nat)                   (* print(C<c>.new().m()) *)
+| IDefClass (c : idx) (z : Z)           (* methods, DefineClass, the global now holds the class *)
+| IUseClass (c : idx)                   (* print(C<c>.new().m()) *)
 | IPush (catch : bool)                  (* PushExcHandler *)
 | IPop                                  (* PopExcHandler *)
 | IThrow (z : Z)                        (* throw z *)
@@ -231,6 +282,7 @@ Inductive instr :=
 | ICapture (z : Z)                      (* var x = z; c = || x;  (open upvalue in the active fiber) *)
 | ICloseUpv                             (* return closes the upvalues of the frame *)
 | IUseLeak                              (* print(c()) *)
+| IUseFiber                             (* print(fw.has_finished()) *)
 | IRange (k : nat)                      (* 0..k : build_range *)
 | IStartImport (m : modk)
 | IFinishImport (m : modk) (bind : bool)(* FinishImport (+ DefineGlobal alias in module main when bind) *)
@@ -308,14 +360,14 @@ Definition step (i : instr) (s : mstate) : mstate * list instr :=
   match i with
   | IDefG k v => (ms_with_c (with_globals (gset k v (c_globals c)) c) s, [])
   | IPrintNum g =>
-      match c_globals c (GVar g) with
+      match gget (GVar g) (c_globals c) with
       | Some (VNum z) => (ms_print (show_Z z) s, [])
       | _ => (m_raise KName (name_error (gname_s g)) s, [])
       end
   | IPrintCall f =>
-      match c_globals c (GFun f) with
+      match gget (GFun f) (c_globals c) with
       | Some (VFn g) =>
-          match c_globals c (GVar g) with
+          match gget (GVar g) (c_globals c) with
           | Some (VNum z) => (ms_print (show_Z (z + 1)) s, [])
           | _ => (m_raise KName (name_error (gname_s g)) (ms_with_c (with_active (frames_add 1 (active c)) c) s), [])
           end
@@ -329,7 +381,7 @@ Definition step (i : instr) (s : mstate) : mstate * list instr :=
       then (ms_with_c (with_globals (gset (GCls cl) (VClass z) (c_globals c)) (with_classdef false c)) s, [])
       else (ms_with_st (Panicked "Expected ClassDef.") s, [])
   | IUseClass cl =>
-      match c_globals c (GCls cl) with
+      match gget (GCls cl) (c_globals c) with
       | Some (VClass z) => (ms_print (show_Z z) s, [])
       | _ => (m_raise KName (name_error (cname_s cl)) s, [])
       end
@@ -371,13 +423,18 @@ Definition step (i : instr) (s : mstate) : mstate * list instr :=
       let f := active c in
       (ms_with_c (with_active (mkFiber (fb_frames f) (fb_stack f) (fb_handlers f) (fb_retpend f) (fb_errip f) false) c) s, [])
   | IUseLeak =>
-      match c_globals c GLeak with
+      match gget GLeak (c_globals c) with
       | Some (VClosure z) => (ms_print (show_Z z) s, [])
       | _ => (m_raise KName (name_error "c") s, [])
       end
+  | IUseFiber =>
+      match gget GFib (c_globals c) with
+      | Some (VFiber lc) => (ms_print (if lc then "false" else "true") s, [])
+      | _ => (m_raise KName (name_error "fw") s, [])
+      end
   | IRange k => (ms_with_c (m_build_range k c) s, [])
   | IStartImport m =>
-      match c_mods c m with
+      match mget m (c_mods c) with
       | Some true => (s, [])                               (* already imported: push the module *)
       | Some false => (m_raise KImport (circular_msg m) s, [])
       | None =>
@@ -395,7 +452,7 @@ Definition step (i : instr) (s : mstate) : mstate * list instr :=
       let c1 := with_mods (mset m true (c_mods c)) c in
       (ms_with_c (if bind then with_globals (gset (GMod m) (VMod m) (c_globals c1)) c1 else c1) s, [])
   | IUseMod m =>
-      match c_globals c (GMod m) with
+      match gget (GMod m) (c_globals c) with
       | Some (VMod m') => (ms_print (mod_v m') s, [])
       | _ => (m_raise KName (name_error (mod_alias m)) s, [])
       end
@@ -434,6 +491,7 @@ Definition code_where (w : where_) : list instr :=
   | WCapture => [ICall; ICapture 41; IThrow 1]
   | WBuiltin => [IPush false; IBuiltinErr KAttr attr_msg; IOut "nf"; IEndFinally true]
   | WCaptureFiber => [ICall; ICapture 41; IFiberEnter; IThrow 1]
+  | WFiberWait => [IDefG GFib (VFiber false); IFiberEnter; IFiberEnter; IThrow 1]
   end.
 
 Definition code_of (s : snip) : list instr :=
@@ -453,6 +511,7 @@ Definition code_of (s : snip) : list instr :=
   | SnCaptureOk => [ICall; ICapture 42; ICloseUpv; IRet]
   | SnRange k => IRange (depth_nat k) :: map (fun i => IOut (show_nat i)) (seq 0 (depth_nat k))
   | SnUseLeak => [IUseLeak]
+  | SnUseFiber => [IUseFiber]
   | SnImport m => [IStartImport m; IFinishImport m true; IUseMod m]
   | SnUseMod m => [IUseMod m]
   | SnReset => []
@@ -466,6 +525,7 @@ Definition chunks_where (w : where_) : nat :=
   | WFiber | WFinallyRet | WClassDefNested => 2
   | WCapture => 3
   | WCaptureFiber => 4
+  | WFiberWait => 3
   end.
 Definition chunks_of (s : snip) : nat :=
   match s with
